@@ -6,6 +6,8 @@
                                                 => Ok len= tc= id= cnt=q,a,n,r opt= b2=
    srv <id> <b2> <qd> <nq> <labels> <qtype> <-|one:size:ver|dup:size|bad> <cfg|-> <none|err:rc|ok:rb2:rb3:n_an:an_len:n_ar:ar_len:(-|size/dlen)>
                                                 => Ok None | Ok len= tc= id= cnt= opt= b2= b3= ottl=   (one datagram through the whole DgramServer)
+   tcp <id> <b2> <qd> <nq> <labels> <qtype> <-|one:size:ver|ka:size:0/1|dup:size|bad> <idle_ms|-> <svc as srv>
+                                                => Ok None | Ok len= ... ottl= odl=   (one request on a StreamServer connection, the response before framing)
    frame <hex>                                  => Ok <hex> | Err 1
    conn <hexchunk> ...                          => open|closed D:id:len.. F:id:len.. X   (dispatches, then direct FORMERRs (only on a connection that stays open:
         after DisconnectWithoutFlush queued responses are not written), then the disconnect) *)
@@ -19,6 +21,17 @@ let ev_str = function
   | EvDispatch m -> (match m with a :: b :: _ -> Printf.sprintf "D:%d:%d" (int_of_n a * 256 + int_of_n b) (List.length m) | _ -> "D:?")
   | EvFormErr m -> (match m with a :: b :: _ -> Printf.sprintf "F:%d:%d" (int_of_n a * 256 + int_of_n b) (List.length m) | _ -> "F:?")
   | EvDisconnect -> "X"
+let opt_of opt = (match String.split_on_char ':' opt with
+  | ["-"] -> OptNone | ["one"; sz; v] -> OptOne (n_of sz, n_of v) | ["ka"; sz; t] -> OptKa (n_of sz, t = "1")
+  | ["dup"; sz] -> OptDup (n_of sz) | ["bad"] -> OptBad
+  | _ -> failwith "opt")
+let svc_of svc = (match String.split_on_char ':' svc with
+  | ["none"] -> None
+  | ["err"; rc] -> Some (Inr (n_of rc))
+  | ["ok"; rb2; rb3; n_an; an_len; n_ar; ar_len; os] ->
+      let ro = if os = "-" then None else (match String.split_on_char '/' os with [a; b] -> Some (n_of a, n_of b) | _ -> failwith "ropt") in
+      Some (Inl ((((((n_of rb2, n_of rb3), n_of n_an), n_of an_len), n_of n_ar), n_of ar_len), ro))
+  | _ -> failwith "svc")
 let handle = function
   | ["neg"; c; h] -> show_outcome show_opt_n (c16_hint (opt_n c) (opt_n h))
   | ["cfg"; v] -> show_opt_n (c16_cfg (opt_n v))
@@ -34,17 +47,16 @@ let handle = function
       show_outcome (fun (((((l, tc), i), (((q, a), n), r)), ho), b2) ->
         Printf.sprintf "len=%s tc=%s id=%s cnt=%s,%s,%s,%s opt=%s b2=%s" (show_n l) (b01 tc) (show_n i)
           (show_n q) (show_n a) (show_n n) (show_n r) (b01 ho) (show_n b2)) r
+  | ["tcp"; id; b2; qd; nq; labels; qtype; opt; idle; svc] ->
+      let r = c16_tcp (n_of id) (n_of b2) (n_of qd) (n_of nq) (List.map n_of (split_on '.' labels)) (n_of qtype) (opt_of opt) (opt_n idle) (svc_of svc) in
+      show_outcome (function
+        | None -> "None"
+        | Some ((((((((l, tc), i), (((q, a), n), r)), ho), b2), b3), ottl), odl) ->
+            Printf.sprintf "len=%s tc=%s id=%s cnt=%s,%s,%s,%s opt=%s b2=%s b3=%s ottl=%s odl=%s" (show_n l) (b01 tc) (show_n i)
+              (show_n q) (show_n a) (show_n n) (show_n r) (b01 ho) (show_n b2) (show_n b3) (show_n ottl) (show_n odl)) r
   | ["srv"; id; b2; qd; nq; labels; qtype; opt; cfg; svc] ->
-      let o = (match String.split_on_char ':' opt with
-        | ["-"] -> OptNone | ["one"; sz; v] -> OptOne (n_of sz, n_of v) | ["dup"; sz] -> OptDup (n_of sz) | ["bad"] -> OptBad
-        | _ -> failwith "opt") in
-      let sv = (match String.split_on_char ':' svc with
-        | ["none"] -> None
-        | ["err"; rc] -> Some (Inr (n_of rc))
-        | ["ok"; rb2; rb3; n_an; an_len; n_ar; ar_len; os] ->
-            let ro = if os = "-" then None else (match String.split_on_char '/' os with [a; b] -> Some (n_of a, n_of b) | _ -> failwith "ropt") in
-            Some (Inl ((((((n_of rb2, n_of rb3), n_of n_an), n_of an_len), n_of n_ar), n_of ar_len), ro))
-        | _ -> failwith "svc") in
+      let o = opt_of opt in
+      let sv = svc_of svc in
       let r = c16_srv (n_of id) (n_of b2) (n_of qd) (n_of nq) (List.map n_of (split_on '.' labels)) (n_of qtype) o (opt_n cfg) sv in
       show_outcome (function
         | None -> "None"
